@@ -38,7 +38,7 @@ impl Rng {
     }
 }
 
-pub const ALPHABETS: [&str; 11] = ["ab", "abc", "meta", "ws", "case", "graph", "astral", "classes", "sgr", "mixed", "clusters"];
+pub const ALPHABETS: [&str; 12] = ["ab", "abc", "meta", "ws", "case", "graph", "astral", "classes", "sgr", "mixed", "clusters", "tokens"];
 
 /// Unsplit multi-code-point graphemes mixing characters that are escaped/converted with ones that
 /// are not: Lo Prepend letters before X, and X before Extend characters that are not marks.
@@ -68,6 +68,23 @@ pub fn cluster_repeat_cases() -> Vec<Vec<String>> {
         v.push(vec![t.repeat(3)]);
         v.push(vec![format!("x{}", t.repeat(2)), format!("x{}y", t.repeat(3))]);
         v.push(vec![t.clone(), format!("{t}{t}"), "z".to_string()]);
+    }
+    v
+}
+
+/// Literal text that looks like one of grex's internal class tokens (`\d` ...) next to members of that
+/// class, single and repeated: (test cases, class flag).
+pub fn token_lookalike_cases() -> Vec<(Vec<String>, u32)> {
+    let table = [("d", DIGIT, "1"), ("w", WORD, "a"), ("s", SPACE, " "), ("D", NDIGIT, "a"), ("W", NWORD, "-"), ("S", NSPACE, "a")];
+    let mut v = vec![];
+    for (l, f, m) in table {
+        let lit = format!("\\{l}");
+        v.push((vec![lit.clone(), m.to_string()], f));
+        v.push((vec![lit.repeat(2), m.repeat(2)], f));
+        v.push((vec![format!("x{}", lit.repeat(3)), format!("x{}", m.repeat(3))], f));
+        v.push((vec![lit.repeat(2), m.repeat(2), "y".to_string()], f));
+        v.push((vec![format!("{}{}", lit.repeat(2), m.repeat(2))], f));
+        v.push((vec![format!("{m}{lit}{m}{lit}"), format!("{m}{m}{m}{m}")], f));
     }
     v
 }
@@ -132,6 +149,8 @@ pub fn alphabet(name: &str) -> Vec<String> {
         "classes" => vec![
             "a", "1", "2", "٣", "_", " ", "-", "\u{a0}", "é", "²", "Ⅷ", "\u{1d7ce}", ".", "Z", "\t", "\u{2003}", "９", "中", "\u{301}", "💩", "!", "\u{200d}",
         ],
+        // literal text that looks like grex's internal class tokens and escapes, next to members of those classes
+        "tokens" => vec!["\\", "d", "D", "w", "W", "s", "S", "1", "a", " ", "-", "u", "{", "}", "n"],
         "sgr" => vec!["\u{1b}", "[", "m", "0", "1", "3", ";", "]", "a", "^", "$", "(", ")", "\\", "9", " "],
         "mixed" => vec![
             "a", "b", "A", "1", " ", ".", "\\", "é", "💩", "\u{301}", "\n", "#", "-", "^", "]", "\u{a0}", "ß", "\u{10ffff}", "x", "y", "|", "(", "*",
@@ -298,7 +317,7 @@ pub fn medium_family(rng: &mut Rng, al: &[String]) -> Vec<String> {
         // many short test cases over a small alphabet: dense trie, heavy merging
         0 => {
             let k = 15 + rng.below(45);
-            let small: Vec<String> = (0..2 + rng.below(3)).map(|_| rng.pick(al).clone()).collect();
+            let small: Vec<String> = (0..2 + rng.below(5)).map(|_| rng.pick(al).clone()).collect();
             (0..k).map(|_| (0..1 + rng.below(6)).map(|_| rng.pick(&small).clone()).collect()).collect()
         }
         // a few long test cases sharing a long prefix / suffix / infix
